@@ -72,6 +72,11 @@ func Family() []*Schema {
 		// t_compc (SCHEMA=t_compc only): composite keys whose values concatenate to the same text ((1,"12") and (11,"2"))
 		{Name: "t_compc", KeyKind: "compc", KeyCols: []string{"id", "sub"},
 			DDL: "CREATE TABLE t_compc (id INT NOT NULL, sub VARCHAR(16) NOT NULL, w1 INT NOT NULL, w2 VARCHAR(64) NOT NULL, u1 INT NOT NULL, PRIMARY KEY (id, sub))"},
+		// t_uq (SCHEMA=t_uq only): a secondary UNIQUE index on a nullable column. Key 1 is the row with id 1 and
+		// code NULL, key 2 the row with code 'c2' (id 2 when seeded or inserted, id 102 when an upsert creates it):
+		// an upsert of key 2 names id 102 and reaches the existing row through the unique index, not the primary key
+		{Name: "t_uq", KeyKind: "uq", KeyCols: []string{"id"},
+			DDL: "CREATE TABLE t_uq (id INT NOT NULL, code VARCHAR(16) NULL, w1 INT NOT NULL, w2 VARCHAR(64) NOT NULL, u1 INT NOT NULL, PRIMARY KEY (id), UNIQUE KEY uq_code (code))"},
 		// t_numw (SCHEMA=t_numw only): the written part is a VARCHAR whose three values are different texts of the
 		// same number (none of them is valid base64, which is C08's open finding F-C08-4)
 		{Name: "t_numw", KeyKind: "int", KeyCols: []string{"id"}, NullOnly: true, W2Vals: []interface{}{"042", "42", "42.0"},
@@ -200,6 +205,15 @@ func (s *Schema) ToAbstract(row map[string]interface{}) Row {
 
 // KeyOf finds the abstract key of a concrete snapshot row (0 if none of 1..nkeys).
 func (s *Schema) KeyOf(row map[string]interface{}, nkeys int) int {
+	if s.KeyKind == "uq" {
+		switch fmt.Sprint(row["id"]) {
+		case "1":
+			return 1
+		case "2", "102":
+			return 2
+		}
+		return 0
+	}
 	for k := 1; k <= nkeys; k++ {
 		kv := s.KeyVals(k)
 		match := true
@@ -367,6 +381,36 @@ func (s *Schema) SQL(st Stmt, style Style) (string, []interface{}) {
 		b.sb.WriteString("DELETE FROM " + tbl + " WHERE ")
 		s.keyCond(b, st.Keys, style)
 	case "ins", "ups":
+		if s.KeyKind == "uq" {
+			b.sb.WriteString("INSERT INTO " + tbl + " (id, code, w1, w2, u1) VALUES ")
+			for i, k := range st.Keys {
+				if i > 0 {
+					b.sb.WriteString(", ")
+				}
+				id, code := int64(k), interface{}(nil)
+				if k == 2 {
+					code = "c2"
+					if st.Kind == "ups" {
+						id = 102
+					}
+				}
+				b.sb.WriteString("(")
+				b.val(id)
+				b.sb.WriteString(", ")
+				b.val(code)
+				b.sb.WriteString(", ")
+				b.val(s.W1(st.W))
+				b.sb.WriteString(", ")
+				b.val(s.W2(st.W))
+				b.sb.WriteString(", ")
+				b.val(s.U1(st.U))
+				b.sb.WriteString(")")
+			}
+			if st.Kind == "ups" {
+				b.sb.WriteString(" ON DUPLICATE KEY UPDATE w1 = VALUES(w1), w2 = VALUES(w2)")
+			}
+			break
+		}
 		if style.PkLate && s.KeyKind == "int" && len(s.KeyCols) == 1 && !s.Auto {
 			cols := []string{"w1", s.KeyCols[0], "w2", "u1"}
 			if s.Zoo {
@@ -443,7 +487,11 @@ func (s *Schema) RowSQL(k int, r Row) []string {
 	s.keyCond(b, []int{k}, Style{Literal: true, LitStrKeys: true})
 	out := []string{b.sb.String()}
 	if r.W >= 0 {
-		sql, _ := s.SQL(Stmt{Kind: "ups", Keys: []int{k}, W: r.W, U: r.U}, Style{Literal: true, LitStrKeys: true})
+		kind := "ups"
+		if s.KeyKind == "uq" {
+			kind = "ins" // seeded rows carry their own id (an upsert of key 2 would name id 102)
+		}
+		sql, _ := s.SQL(Stmt{Kind: kind, Keys: []int{k}, W: r.W, U: r.U}, Style{Literal: true, LitStrKeys: true})
 		sql = strings.Replace(sql, " ON DUPLICATE KEY UPDATE w1 = VALUES(w1), w2 = VALUES(w2)", "", 1)
 		out = append(out, sql)
 	}
